@@ -602,6 +602,9 @@ def r7_versionless(P, rep, ctx):
     rep.check(bool(pa) and f.all_hit_before(f.test_nodes(nover), nodes=pa), "C16.R7", fi.qual, "the tested version is the effective one computed by plugin_args", fi.loc(), construct="plugin_args before version test",
               message="get() tests the raw `version` argument, not the effective version from plugin_args")
     rets = [(i, v) for i, v in f.returns() if v is not None and not (isinstance(v, ast.Constant) and v.value is None)]
+    # "not found" answers: inside the KeyError handler the caller's own default (a parameter) may be handed back
+    handlers = [n.idx for n in g.nodes if n.kind == "except" and n.stmt is not None and n.stmt.type is not None and "KeyError" in norm(n.stmt.type)]
+    rets = [(i, v) for i, v in rets if not (isinstance(v, ast.Name) and v.id in fi.params[3:] and handlers and f.hit_before(i, nodes=handlers))]
     marked_vars = set()
     for n in g.nodes:
         if n.kind == "stmt" and isinstance(n.stmt, ast.Assign) and isinstance(n.stmt.value, ast.Call) and norm(n.stmt.value.func) == "UndefVersion._mark_class":
